@@ -121,6 +121,77 @@ Proof.
   repeat split; vm_compute; reflexivity.
 Qed.
 
+(* [W] ... and INSIDE the magnitude range of C07 (|coordinates| <= 2^22): one row [0,45] x [2^22 - 9, 2^22] (odd height 9),
+   default side margin 0.9 and bin size 5 (margin 8, maxSize 45: one bin), 45 movable cells 1 x 9 (an overfull bin), y targets
+   0, 1, .., 44: the last cell's exact coordinate is 2^22 - 0.1, binary32 (one unit in the last place = 1/4 just below 2^22)
+   collapses it onto the bin limit 2^22 = maxY R, std::round(2^22 - 4.5) = 2^22 - 4, twice the exposed centre is 2 maxY R + 1.
+   Reproduced on the compiled library through Circuit::placeGlobal (design/C06.md, observation O3) *)
+Definition wy_rows := [ {| rr := {| minX := 0; maxX := 45; minY := 4194295; maxY := 4194304 |}; ro := oN |} ].
+Definition wy_cells : list ccell := map (fun k => (Z.of_nat k, 4194295, 1, 9, oN, false, false)) (seq 0 45).
+Definition wy_view := {| v_x := [8; 37]; v_y := [4194295; 4194304]; v_cells := [[seq 0 45]] |}.
+Definition wy_t : list f32 := map (fun k => f_of_Z (Z.of_nat k)) (seq 0 45).
+
+Theorem c06_half_unit_slack_attained_in_range :
+  has_proper_row wy_rows /\
+  (let R := bbox (map rr wy_rows) in
+   Z.abs (minX R) <= 2 ^ 22 /\ Z.abs (maxX R) <= 2 ^ 22 /\ Z.abs (minY R) <= 2 ^ 22 /\ Z.abs (maxY R) <= 2 ^ 22) /\
+  view_of_circuit 8 45 wy_rows wy_cells wy_view = true /\
+  forallb (fun c => 0 <? nth c (map cell_demand wy_cells) 0) (view_cells wy_view) = true /\
+  exists c X Y, nth_error wy_cells 44 = Some c /\ cc_fixed c = false /\ 0 < cell_demand c /\
+    nth_error (ub_exposure 8 wy_rows wy_cells wy_view wy_t wy_t) 44 = Some (Some (X, Y)) /\
+    2 * Y + placed_h c = 2 * maxY (bbox (map rr wy_rows)) + 1.
+Proof.
+  split; [eexists; split; [left; reflexivity|simpl; lia]|].
+  split; [vm_compute; repeat split; discriminate|].
+  split; [vm_compute; reflexivity|]. split; [vm_compute; reflexivity|].
+  exists (44, 4194295, 1, 9, oN, false, false), 36, 4194300.
+  repeat split; vm_compute; reflexivity.
+Qed.
+
+(* ---------------------------------------------------------------- 1b. the view hypothesis as C16 states it *)
+Require CV.Density CV.DensityProofs.
+
+(* [F] MAIN, general form: the limits of the view only have to be strictly increasing and taken from the finest limits
+   (limits_view); no cell list shape, no NoDup: a cell that is in a bin in one direction only, or in several bins, is
+   still exposed inside *)
+Theorem c06_ub_exposed_centres_inside_rows_bbox_gen : forall margin maxSize rows cells v tx ty,
+  0 <= margin -> 1 <= maxSize -> has_proper_row rows ->
+  in_window (bbox (map rr rows)) -> cells_window cells ->
+  limits_view (fst (grid_of_circuit margin maxSize rows cells)) (v_x v) ->
+  limits_view (snd (grid_of_circuit margin maxSize rows cells)) (v_y v) ->
+  bins_positive cells v ->
+  forall i c, nth_error cells i = Some c -> cc_fixed c = false -> (i < length tx)%nat -> (i < length ty)%nat ->
+  let R := bbox (map rr rows) in
+  exists X Y, nth_error (ub_exposure margin rows cells v tx ty) i = Some (Some (X, Y)) /\
+    2 * minX R - placed_w c mod 2 <= 2 * X + placed_w c <= 2 * maxX R + placed_w c mod 2 /\
+    2 * minY R - placed_h c mod 2 <= 2 * Y + placed_h c <= 2 * maxY R + placed_h c mod 2.
+Proof. exact ub_exposed_centres_inside_rows_bbox_gen. Qed.
+
+(* [F] the boolean test the tie evaluates on every recorded view implies limits_view *)
+Theorem c06_is_view_limits_view : forall L H fine v, limits_ok L H fine -> is_view fine v = true -> limits_view fine v.
+Proof. exact is_view_limits_view. Qed.
+
+(* [F] the limits of EVERY level of C16's hierarchy (Density.level_limits, the subject of c16_level_limits_tile) over
+   strictly increasing finest limits satisfy limits_view ... *)
+Theorem c06_c16_level_limits_are_views : forall fine nb Lv P lvl vs, (1 <= nb)%nat -> DensityProofs.levels_ok nb Lv P ->
+  length fine = S nb -> DensityProofs.schainZ fine ->
+  Density.level_limits fine Lv lvl = Some vs -> limits_view fine vs.
+Proof. exact c16_level_limits_view. Qed.
+
+(* [F] ... and C16's grid of a circuit has exactly the bin limits of C06's (two models of DensityGrid::fromIspdCircuit) *)
+Theorem c06_grid_models_agree : forall bs margin rows cells,
+  Density.limX (Density.grid_of_circuit bs margin rows cells) = fst (Spread.grid_of_circuit margin bs rows cells) /\
+  Density.limY (Density.grid_of_circuit bs margin rows cells) = snd (Spread.grid_of_circuit margin bs rows cells).
+Proof. exact grid_of_circuit_bridge. Qed.
+
+Example c06_views_nonvacuous :
+  limits_view [1; 13; 26; 39] [1; 13; 39] /\ is_view [1; 13; 26; 39] [1; 13; 39] = true /\ is_view [1; 13; 26; 39] [1; 14; 39] = false /\
+  Density.limX (Density.grid_of_circuit 10 1 cx_rows cx_cells) = [1; 13; 26; 39] /\
+  Density.level_limits [1; 13; 26; 39] [[0; 1; 2; 3]; [0; 2; 3]; [0; 3]]%nat 1 = Some [1; 26; 39].
+Proof.
+  split; [split; [simpl; lia|intros a Ha; simpl in *; tauto]|]. repeat split; vm_compute; reflexivity.
+Qed.
+
 (* ---------------------------------------------------------------- 2. the pieces the composition needed *)
 
 (* [F] repaired spreadCells in binary32, every demand positive as a float, ANY targets: every entry of the result is
@@ -251,7 +322,12 @@ Proof. repeat split; vm_compute; reflexivity. Qed.
 Print Assumptions c06_ub_exposed_centres_inside_rows_bbox.
 Print Assumptions c06_ub_exposed_centres_inside_grid_area.
 Print Assumptions c06_centre_inside_even.
+Print Assumptions c06_ub_exposed_centres_inside_rows_bbox_gen.
+Print Assumptions c06_is_view_limits_view.
+Print Assumptions c06_c16_level_limits_are_views.
+Print Assumptions c06_grid_models_agree.
 Print Assumptions c06_half_unit_slack_attained.
+Print Assumptions c06_half_unit_slack_attained_in_range.
 Print Assumptions c06_spread_cells_float_all_inside.
 Print Assumptions c06_spread_cells_float_any_order_inside.
 Print Assumptions c06_spread_coord_float_inside.
